@@ -224,7 +224,9 @@ def dup_chunk(args):
             try:
                 root = os.path.join(d, "root")
                 os.makedirs(root)
-                paths = C16.materialise(case, root)
+                # every other code base with 70 KiB contents that differ only in one late byte (equal size, prefix, mtime)
+                big = bool(ci % 2 == 1 or case.get("big"))
+                paths = C16.materialise(case, root, big=big)
                 inv = {os.path.abspath(p): i for i, p in paths.items()}
                 want = {frozenset(g) for g in case["groups"]}
                 if want:
@@ -250,7 +252,7 @@ def dup_chunk(args):
                                           symptom="duplicate-groups-depend-on-schedule",
                                           detail=f"scandir order #{scanorder}, PYTHONHASHSEED={hs}: rc={rc} groups "
                                                  f"{sorted(map(sorted, groups), key=str)} expected {sorted(map(sorted, want))}\n{out[-300:]}",
-                                          case={"dup": case, "sched": s}))
+                                          case={"dup": dict(case, big=big), "sched": s}))
                         break
             finally:
                 shutil.rmtree(d, ignore_errors=True)
